@@ -102,6 +102,7 @@ static FdInfo *tracked(int fd) {
 }
 
 static long do_write(int fd, FdInfo *fi, const char *data, size_t n) {
+  sim::Harness harness_scope;
   int proc = sim::self_proc();
   int fileid = fi->fileid;
   sim::point(sim::K_WRITE, fileid);
@@ -138,6 +139,7 @@ ssize_t write(int fd, const void *buf, size_t n) {
 ssize_t writev(int fd, const struct iovec *iov, int cnt) {
   FdInfo *fi = tracked(fd);
   if (!fi) return syscall(SYS_writev, fd, iov, cnt);
+  sim::Harness harness_scope;
   std::string all;
   for (int i = 0; i < cnt; i++) all.append((const char *)iov[i].iov_base, iov[i].iov_len);
   return do_write(fd, fi, all.data(), all.size());
@@ -146,6 +148,7 @@ ssize_t writev(int fd, const struct iovec *iov, int cnt) {
 ssize_t read(int fd, void *buf, size_t n) {
   FdInfo *fi = tracked(fd);
   if (!fi) return raw_read(fd, buf, n);
+  sim::Harness harness_scope;
   int proc = sim::self_proc();
   int fileid = fi->fileid;
   sim::point(sim::K_READ, fileid);
@@ -167,6 +170,7 @@ static FILE *sim_fopen(const char *name, const char *path, const char *mode) {
   fopen_t f = (strcmp(name, "fopen64") == 0 && real64) ? real64 : real;
   int fileid = (active() && g_env) ? g_env->file_id(path) : FILE_NONE;
   if (fileid == FILE_NONE) return f(path, mode);
+  sim::Harness harness_scope;
   int proc = sim::self_proc();
   bool writing = strchr(mode, 'w') || strchr(mode, 'a') || strchr(mode, '+');
   sim::point(sim::K_FOPEN, fileid * 2 + (writing ? 1 : 0));
@@ -187,6 +191,7 @@ int fclose(FILE *fp) {
   int fd = fp ? fileno(fp) : -1;
   FdInfo *fi = fd >= 0 ? tracked(fd) : nullptr;
   if (!fi) return real(fp);
+  sim::Harness harness_scope;
   int proc = sim::self_proc();
   int fileid = fi->fileid;
   bool writing = fi->writing;
@@ -222,6 +227,7 @@ int __wrap_open(const char *path, int flags, ...) {
   }
   int fileid = (active() && g_env) ? g_env->file_id(path) : FILE_NONE;
   if (fileid == FILE_NONE) return __real_open(path, flags, mode);
+  sim::Harness harness_scope;
   int proc = sim::self_proc();
   sim::point(sim::K_OPEN, fileid);
   int fd = raw_open(path, flags, mode);
@@ -233,6 +239,7 @@ int __wrap_open(const char *path, int flags, ...) {
 int __wrap_close(int fd) {
   FdInfo *fi = tracked(fd);
   if (!fi) return __real_close(fd);
+  sim::Harness harness_scope;
   int proc = fi->proc;
   int fileid = fi->fileid;
   sim::point(sim::K_CLOSE, fileid);
@@ -251,6 +258,7 @@ int __wrap_fcntl(int fd, int cmd, ...) {
   va_end(ap);
   FdInfo *fi = tracked(fd);
   if (!fi || fi->fileid != FILE_LOCK || (cmd != F_SETLK && cmd != F_SETLKW)) return __real_fcntl(fd, cmd, arg);
+  sim::Harness harness_scope;
   struct flock *fl = (struct flock *)arg;
   int proc = sim::self_proc();
   if (fl->l_type == F_UNLCK) {
@@ -275,6 +283,7 @@ int __wrap_fcntl(int fd, int cmd, ...) {
 
 pid_t __wrap_getpid(void) {
   if (!active() || !g_env) return __real_getpid();
+  sim::Harness harness_scope;
   sim::point(sim::K_GETPID, 0);
   return pid_of(sim::self_proc());
 }
@@ -287,6 +296,7 @@ int __wrap_gethostname(char *name, size_t len) {
 
 time_t __wrap_time(time_t *t) {
   if (!active() || !g_env) return __real_time(t);
+  sim::Harness harness_scope;
   sim::point(sim::K_TIME, 0);
   time_t v = (time_t)g_env->clock(sim::self_proc());
   if (t) *t = v;
